@@ -29,3 +29,27 @@ int fx3_untouched_s(char *dest, size_t dmax, const char *src) {         /* retur
     if (!src) { invoke_safe_str_constraint_handler("src is null", dest, 400); return 400; }
     *dest = 0; return 0;
 }
+/* index form with an extracted clearing helper: the count handed to the helper is a difference of two loop-carried values (benign patch B9) */
+#include <wchar.h>
+static inline void fx3_null_slack(wchar_t *dest, size_t dmax) {
+    if (dmax > 0x20)
+        memset(dest, 0, dmax * sizeof(wchar_t));
+    else {
+        while (dmax) { *dest = L'\0'; dmax--; dest++; }
+    }
+}
+int fx3_index_helper_s(wchar_t *dest, size_t dmax, const wchar_t *src, size_t slen) {
+    size_t i;
+    if (dest == NULL || dmax == 0 || dmax > 1024 || src == NULL || slen > 1024) { invoke_safe_str_constraint_handler("fx3_index_helper_s: bad", dest, 400); return 400; }
+    while (*dest != L'\0') {
+        dest++; dmax--;
+        if (dmax == 0) { invoke_safe_str_constraint_handler("fx3_index_helper_s: unterminated", NULL, 407); return 407; }
+    }
+    for (i = 0; i < dmax; i++) {
+        if (i == slen) { fx3_null_slack(&dest[i], dmax - i); return 0; }
+        dest[i] = src[i];
+        if (dest[i] == L'\0') { fx3_null_slack(&dest[i], dmax - i); return 0; }
+    }
+    invoke_safe_str_constraint_handler("fx3_index_helper_s: nospc", NULL, 406);
+    return 406;
+}
